@@ -158,6 +158,12 @@ def eval_expr(d):
         return SourceSpectrum(eval_expr(d['e']), **kw)
     if 'setz' in d:
         obj = eval_expr(d['e'])
+        if d['setz'].get('pre_waveset'):
+            try:            # the sampling set was already asked for before the assignment
+                obj.waveset
+                obj.waverange
+            except Exception:   # noqa
+                pass
         if d['setz'].get('ztype'):
             obj.z_type = d['setz']['ztype']
         obj.z = fl(d['setz']['z'])
@@ -316,7 +322,8 @@ INVALID_SCALARS = ['dimq', 'percentq', 'arrayq', 'complexq', 'complex', 'array',
 def gen_scalar(rng, valid=True):
     if valid:
         c = rng.choice(VALID_SCALARS)
-        v = F(rng.choice([2, 3, 4, 1])) if c in ('int', 'npint') else F(1) if c == 'bool' else rng.choice([F(1, 2), F(3, 2), F(2), F(-1), F(5, 4)])
+        v = F(rng.choice([2, 3, 4, 1])) if c in ('int', 'npint') else F(1) if c == 'bool' else rng.choice(
+            [F(1, 2), F(3, 2), F(2), F(-1), F(5, 4), F(2) ** -30, F(2) ** -60, F(3) * F(2) ** -100, F(2) ** 40, -F(2) ** -45])
         return {'scalar': c, 'v': q(v)}
     return {'scalar': rng.choice(INVALID_SCALARS)}
 
